@@ -41,6 +41,10 @@ clang CFGs of initTaskingSystem / numTaskingThreads with all callees that have a
            (callees inlined) and must leave it alone.  In the published-count form (numTaskingThreads returns a stored count)
            R-C13-2 additionally requires the stored value to be the paired getter sampled after the previous owner of the
            limit was released, and R-C13-3 that the cell is statically 0.
+  R-C13-13 the public declaration of numTaskingThreads carries no __attribute__((const)) (it reads state that initTaskingSystem
+           replaces; the compiler could merge calls across a re-initialisation); initTaskingSystem carries neither const nor pure.
+           In the cached form (numTaskingThreads returns a count kept in a persistent cell) R-C13-2 requires every path of
+           initTaskingSystem to refresh that cell with the paired getter or to reset the key the cache is guarded by.
   R-C13-11 the object holding the process-wide handle is one object per program: if initTaskingSystem / numTaskingThreads are
            inline in the public header, the state they reach must not be a namespace-scope variable with internal linkage
            (`static` / anonymous namespace in a header = one copy per translation unit); a function-local static of an
@@ -202,6 +206,18 @@ def unrecognised_backend_calls(p, cfg):
     return out
 
 
+def path_conditions(p, N):
+    """the facts other than the range of n that single out path p, as text (which early return / branch was taken)"""
+    out = []
+    for k, v in p.state.d.items():
+        if not (isinstance(k, tuple) and k[0] == 'fact') or k[1] == N or (isinstance(k[1], tuple) and k[1][0] == 'param'):
+            continue
+        lo, hi = v
+        what = show_val(Poly.atom(k[1]))
+        out.append('%s %s' % (what, 'is null/false' if (lo, hi) == (0, 0) else 'is non-null/true' if lo >= 1 else 'in [%s, %s]' % (lo, hi)))
+    return ' on the path where ' + ' and '.join(sorted(out)[:4]) + ': the (re-)initialisation is silently ignored there' if out else ''
+
+
 def final_value(p, loc):
     """value a location holds at the end of path p (its entry value if never stored)"""
     v = p.mem(loc)
@@ -239,6 +255,7 @@ def check_query(ctx, cfg, tus, tag):
                 globs.add(k[1])
     inst0 = 'numTaskingThreads [%s]' % tag
     _MODE.pop(tag, None)
+    _MODE.pop((tag, 'cache'), None)
     rets = {strip_site(p.ret) if (p.kind == 'return' and p.ret is not None) else None for p in paths}
     if not globs and len(rets) == 1 and isinstance(next(iter(rets)), tuple) and next(iter(rets))[0] == 'glob':
         # "published count": the function returns the content of one global cell that initTaskingSystem fills.
@@ -292,6 +309,19 @@ def check_query(ctx, cfg, tus, tag):
             if not bad:
                 ctx.ok(R3, inst, 'returns 0 without touching the handle', tu.fn_loc(f))
         if hi >= 1:
+            rv = strip_site(ret) if ret is not None else None
+            if isinstance(rv, tuple) and rv and rv[0] == 'glob' and rv != G:
+                # a cached count: the function returns what it (or somebody) stored earlier in a persistent cell.  Whether the
+                # cache is refreshed / invalidated whenever the limit changes is decided on initTaskingSystem (check_init).
+                keys = set()
+                for k2 in p.state.d:
+                    if isinstance(k2, tuple) and k2[0] == 'pc' and k2[1].op == '==':
+                        ats = [a for a in k2[1].p.atoms(deep=False) if isinstance(a, tuple) and a and a[0] == 'glob']
+                        if G in ats:
+                            keys.update(a for a in ats if a != G and a != rv)
+                c0 = _MODE.get((tag, 'cache'))
+                _MODE[(tag, 'cache')] = (rv, keys | (c0[1] if c0 and c0[0] == rv else set()), tu.fn_loc(f))
+                continue
             want, got_ok, why = expected_getter(cfg, ret)
             if got_ok is True:
                 if cfg == 'INTERNAL':
@@ -474,6 +504,30 @@ def check_init(ctx, cfg, tus, tag, G, GT):
                 bad = True
                 ctx.undecided(R4, inst, '`%s` is assigned %s; cannot tell whether numTaskingThreads() sees the system as initialised'
                               % (gname, show_val(hv)), tu.fn_loc(f))
+        # ---- R-C13-2 (cached form): numTaskingThreads hands out a count kept in a persistent cell; every (re-)initialisation must
+        #      refresh that cell with the paired getter or invalidate the key the cache is guarded by
+        cache = _MODE.get((tag, 'cache'))
+        if cache is not None:
+            C, keys, qloc = cache
+            cn = C[1].split('::')[-1]
+            cv = p.mem(C)
+            refreshed = cv is not None and expected_getter(cfg, cv)[1] is True
+            invalidated = [K for K in keys if p.mem(K) is not None and p.mem(K).as_int() == 0]
+            if refreshed or invalidated:
+                ctx.ok('R-C13-2', inst + ' cached count', '`%s` %s by initTaskingSystem' % (cn, 'refreshed' if refreshed else
+                       'invalidated through `%s` = null' % invalidated[0][1].split('::')[-1]), tu.fn_loc(f))
+            elif cv is None and not any(p.mem(K) is not None for K in keys):
+                bad = True
+                report(ctx, p, 'R-C13-2', 'numTaskingThreads [%s] cached count' % tag, 'numTaskingThreads returns the count cached in `%s` '
+                       'whenever the handle pointer equals the remembered %s, and initTaskingSystem neither refreshes `%s` nor resets that key: '
+                       'the cache is invalidated only by a *different address*, so a new handle allocated where an earlier one lived '
+                       '(init(a); query; init(b); init(c); query) gets the stale count of the earlier setting - the reported count is not '
+                       'the n just configured' % (cn, ', '.join('`%s`' % K[1].split('::')[-1] for K in sorted(keys)) or 'key', cn), qloc,
+                       'R-C13-2|%s|numTaskingThreads|%s:stale-cached-count' % (file, cfg))
+            else:
+                bad = True
+                ctx.undecided('R-C13-2', inst, 'numTaskingThreads returns a count cached in `%s`; initTaskingSystem writes %s to it / its key; '
+                              'cannot tell whether the cache is valid afterwards' % (cn, show_val(cv)), tu.fn_loc(f))
         # ---- R-C13-1: the limit
         if cfg == 'DEBUG':
             ctx.ok(R1, inst, 'serial backend: no limit to apply', tu.fn_loc(f), nontrivial=False)
@@ -488,8 +542,8 @@ def check_init(ctx, cfg, tus, tag, G, GT):
                     ctx.undecided(R1, inst, '%s is called, which is not a recognised thread-limit API of this backend (%s)'
                                   % (takers[0][1], limit_name(cfg)), takers[0][4])
                 else:
-                    report(ctx, p, R1, inst, 'for n in %s the thread limit is never handed to the backend (%s not reached)'
-                           % (rng((max(lo, 1), hi)), limit_name(cfg)), tu.fn_loc(f),
+                    report(ctx, p, R1, inst, 'for n in %s the thread limit is never handed to the backend (%s not reached)%s'
+                           % (rng((max(lo, 1), hi)), limit_name(cfg), path_conditions(p, N)), tu.fn_loc(f),
                            '%s|%s|initTaskingSystem|%s:limit-not-applied' % (R1, file, cfg))
             for e in limits:
                 v = limit_value(cfg, e)
@@ -973,6 +1027,36 @@ def check_one_handle(ctx, tu, tag):
     return n
 
 
+def check_declared_effects(ctx, tu, tag, reads_state):
+    """R-C13-13: what the public declarations promise the compiler.  numTaskingThreads() reads state that initTaskingSystem()
+    replaces, so it must not be declared __attribute__((const)) / [[gnu::const]] ("result depends on the arguments only"): the
+    compiler may then reuse the result of an earlier call across an initTaskingSystem().  `pure` (may read memory, no side
+    effects) is accepted for the query; initTaskingSystem must carry neither."""
+    R13 = 'R-C13-13'
+    n = 0
+    for name, bad_attrs in (('numTaskingThreads', ('ConstAttr',)), ('initTaskingSystem', ('ConstAttr', 'PureAttr'))):
+        decls = [d for d in tu.nodes.values() if d.get('kind') == 'FunctionDecl' and d.get('name') == name
+                 and (d.get('mangledName') or '').startswith('_ZN8rkcommon7tasking')]
+        if not decls:
+            ctx.broken('%s: no declaration of rkcommon::tasking::%s visible to a client translation unit' % (R13, name))
+            continue
+        n += 1
+        inst = 'declaration of %s as seen by a client translation unit [%s]' % (name, tag)
+        hits = [(d, a) for d in decls for a in d.get('inner', []) if isinstance(a, dict) and a.get('kind') in bad_attrs]
+        if hits and (name != 'numTaskingThreads' or reads_state):
+            d, a = hits[0]
+            attr = 'const' if a['kind'] == 'ConstAttr' else 'pure'
+            ctx.violation(R13, inst, '%s is declared __attribute__((%s)), i.e. "%s", but it %s: an optimising compiler may merge two calls '
+                          'that have an initTaskingSystem() between them, so client code sees the count from before the re-initialisation'
+                          % (name, attr, 'the result depends on nothing but the arguments' if attr == 'const' else 'no side effects',
+                             'reads the tasking state that initTaskingSystem replaces' if name == 'numTaskingThreads' else
+                             'changes the tasking state'), 'rkcommon/tasking/tasking_system_init.h',
+                          key='%s|rkcommon/tasking/tasking_system_init.h|%s|declared-%s' % (R13, name, attr))
+        else:
+            ctx.ok(R13, inst, 'no const/pure promise that the definition does not keep', 'rkcommon/tasking/tasking_system_init.h')
+    return n
+
+
 def in_anonymous_namespace(tu, node):
     p = tu.par(node)
     while p is not None:
@@ -1121,6 +1205,7 @@ def run(ctx):
     ctx.describe('R-C13-7', 'initTaskingSystem never empties the installed handle before the new one is constructed (no window without a limit)')
     ctx.describe('R-C13-10', 'on return from initTaskingSystem the last write to the backend limit is the one carrying n: no destructor '
                              '(of the previous handle) running inside the call writes another value afterwards')
+    ctx.describe('R-C13-13', 'the public declarations make no const/pure promise: numTaskingThreads reads state that initTaskingSystem replaces')
     ctx.describe('R-C13-12', 'the state numTaskingThreads() reports from is set only by initTaskingSystem: no other entry point of the '
                              'tasking-init sources (lazy start-up, ...) leaves it non-null')
     ctx.describe('R-C13-11', 'the handle is one object per program: inline definitions in the public header must not reach a namespace-scope '
@@ -1172,6 +1257,7 @@ def run(ctx):
     n11 = 0
     for cfg, ctu in zip(ccfgs, ctx.front.parse_many([dict(unit=CLIENT, config=c, extra=ND) for c in ccfgs])):
         n11 += check_one_handle(ctx, ctu, cfg)
+        check_declared_effects(ctx, ctu, cfg, True)
     ctx.floor('R-C13-11', n11, 2 * len(ccfgs), 'initTaskingSystem and numTaskingThreads per client parse')
     n7 = 0
     for ci, cfg in enumerate(('TBB', 'OMP', 'INTERNAL', 'DEBUG')):
